@@ -29,7 +29,16 @@ class Cond:
         self.bound, self.symbolic, self.realised = bound, symbolic, realised
         self.twin = twin          # name of a built-in broken twin (must be refuted)
         self.env = env or {}
-        self.extra_pre = tuple(extra_pre)
+        # `name == <int>` preconditions become constants of the wrapper (no wasted precondition-failure paths)
+        self.fixed = {}
+        rest = []
+        for e in extra_pre:
+            m = re.match(r'^\s*(\w+)\s*==\s*(-?\d+)\s*$', e)
+            if m:
+                self.fixed[m.group(1)] = int(m.group(2))
+            else:
+                rest.append(e)
+        self.extra_pre = tuple(rest)
         self.name = name or ('%s.%s' % (module.rsplit('.', 1)[-1], func)) + (('#twin:' + twin) if twin else '')
         self.group = group
         # own: clause tags this property is about; a shared condition checks more clauses than that, and a
@@ -50,14 +59,21 @@ def _wrapper_source(cond, exclude_known):
             if l.strip().startswith('require:')]
     raises = []
     params = []
+    consts = []
     for p in sig.parameters.values():
         ann = p.annotation
         if ann is inspect.Parameter.empty:
             raise ValueError('harness parameter without annotation: %s.%s(%s)' % (cond.module, cond.func, p.name))
-        params.append('%s: %s' % (p.name, _ann(ann)))
+        if p.name in cond.fixed:
+            consts.append('%s = %r' % (p.name, cond.fixed[p.name]))
+        else:
+            params.append('%s: %s' % (p.name, _ann(ann)))
+    unknown = set(cond.fixed) - set(sig.parameters)
+    if unknown:
+        raise ValueError('fixed names %r are no parameters of %s' % (unknown, cond.func))
     names = ', '.join(sig.parameters)
     lines = ['import typing', 'from typing import *', 'from %s import *' % cond.module,
-             'import %s as _m' % cond.module, '',
+             'import %s as _m' % cond.module, ''] + consts + ['',
              'def cond(%s) -> bool:' % ', '.join(params), '    """']
     for p in pres + ['pre: ' + x for x in cond.extra_pre]:
         lines.append('    ' + p)
@@ -110,7 +126,7 @@ def _memo_key(cond, src, exclude_known):
         _VP_HASH = h.hexdigest() + repo_digest()
     h = hashlib.sha256()
     h.update(repr((_VP_HASH, cond.name, src, cond.timeout, cond.path_timeout, sorted(cond.env.items()),
-                   cond.twin, exclude_known)).encode())
+                   cond.twin, exclude_known, sorted(cond.fixed.items()))).encode())
     return h.hexdigest()[:32]
 
 
@@ -212,6 +228,22 @@ def _def_line(path, name):
 
 
 def replay_source(cond, args):
+    if cond.fixed:
+        # the counterexample lists only the symbolic parameters: put the constants back in signature order
+        mod = importlib.import_module(cond.module)
+        order = list(inspect.signature(getattr(mod, cond.func)).parameters)
+        sym = [n for n in order if n not in cond.fixed]
+        parts = _split_args(args)
+        vals = {}
+        for i, part in enumerate(parts):
+            mm = re.match(r'^\s*(\w+)\s*=(?!=)(.*)$', part, re.S)
+            if mm and mm.group(1) in sym:
+                vals[mm.group(1)] = mm.group(2).strip()
+            elif i < len(sym):
+                vals[sym[i]] = part.strip()
+        for n, v in cond.fixed.items():
+            vals[n] = repr(v)
+        args = ', '.join(vals[n] for n in order)
     return ('# replay of a CrossHair counterexample on the plain interpreter; exit 1 = reproduces on /repo\n'
             'import sys, traceback\nsys.path.insert(0, %r)\n'
             'import %s as _m\n'
@@ -219,7 +251,10 @@ def replay_source(cond, args):
             '    return _m.%s(%s)\n'
             'k = getattr(_m, %r, None)\n'
             'if k is not None:\n'
-            '    print("KNOWN=%%s" %% (k(%s),))\n'
+            '    try:\n'
+            '        print("KNOWN=%%s" %% (k(%s),))\n'
+            '    except BaseException:\n'
+            '        print("KNOWN=None")\n'
             'try:\n'
             '    r = _run()\n'
             'except BaseException:\n'
@@ -234,6 +269,39 @@ def replay_source(cond, args):
             'sys.exit(1)\n' % (ROOT, cond.module, cond.func, args, cond.func + '_known', args))
 
 
+def _split_args(args):
+    """split a printed argument list at top-level commas"""
+    out, depth, cur, q = [], 0, '', None
+    i = 0
+    while i < len(args):
+        ch = args[i]
+        if q:
+            cur += ch
+            if ch == '\\':
+                cur += args[i + 1]
+                i += 1
+            elif ch == q:
+                q = None
+        elif ch in '\'"':
+            q = ch
+            cur += ch
+        elif ch in '([{':
+            depth += 1
+            cur += ch
+        elif ch in ')]}':
+            depth -= 1
+            cur += ch
+        elif ch == ',' and depth == 0:
+            out.append(cur)
+            cur = ''
+        else:
+            cur += ch
+        i += 1
+    if cur.strip():
+        out.append(cur)
+    return out
+
+
 def run_replay(path, env_extra=None):
     env = dict(os.environ, PYTHONPATH=REPO + os.pathsep + ROOT, PYTHONDONTWRITEBYTECODE='1')
     env.pop('VP_TWIN', None)
@@ -246,6 +314,8 @@ def run_conditions(ctx, conds, workers=16):
     """Runs all conditions, handles replay / known findings / twins, records obligations in ctx."""
     if getattr(ctx, 'only', None):
         conds = [c for c in conds if ctx.only in c.name]
+    for m in sorted({c.module for c in conds}):
+        importlib.import_module(m)        # in the main thread (imports from worker threads can deadlock)
     with ThreadPoolExecutor(max_workers=workers) as ex:
         futs = [(c, ex.submit(_process, ctx, c)) for c in conds]
         for c, f in futs:
